@@ -168,6 +168,7 @@ pub fn exec(tok: &[&str]) -> String {
         "sign" => crate::sign::op_sign(tok[1].parse().unwrap(), &unhex(tok[2]), &unhex(tok[3]), tok[4].parse().unwrap()),
         "sign_salt" => crate::sign::op_sign_salt(tok[1].parse().unwrap(), &unhex(tok[2]), &unhex(tok[3]), tok[4].parse().unwrap()),
         "sign_fresh" => crate::sign::op_sign_fresh(tok[1].parse().unwrap(), &unhex(tok[2]), tok[3].parse().unwrap(), tok[4].parse().unwrap()),
+        "sign_key_after_key" => crate::sign::op_key_after_key(tok[1].parse().unwrap(), tok[2]),
         "sign_stats" => crate::c01::op_sign_stats(tok[1].parse().unwrap(), &unhex(tok[2]), tok[3].parse().unwrap(), tok[4].parse().unwrap()),
         "sign_leaves" => crate::c01::op_sign_leaves(tok[1].parse().unwrap(), &unhex(tok[2]), &unhex(tok[3]), tok[4].parse().unwrap()),
         // ---- floating-point FFT layer (C13) -------------------------------------------------------------
